@@ -39,6 +39,23 @@ def tree_id():
         return {"repo": repo, "head": None, "src_sha1": h.hexdigest()[:12]}
 
 
+def executable_lines(path):
+    """Line numbers that carry code, from the compiled code objects (docstring-only lines excluded by CPython)."""
+    try:
+        code = compile(open(path).read(), path, "exec")
+    except (OSError, SyntaxError):
+        return set()
+    lines = set()
+    stack = [code]
+    while stack:
+        c = stack.pop()
+        for _, _, ln in c.co_lines():
+            if ln is not None and ln > 0:
+                lines.add(ln)
+        stack.extend(k for k in c.co_consts if hasattr(k, "co_lines"))
+    return lines
+
+
 def child_env(hashseed, pycache):
     env = dict(os.environ)
     env["PYTHONPATH"] = os.pathsep.join([os.path.join(repo_dir(), "src"), HERE])
@@ -159,6 +176,35 @@ def main(argv=None):
         notes.extend(r.get("notes", []))
         inconcl.extend(r.get("inconclusive", []))
 
+    # ---- reach: executed / executable statements per anchored source file
+    reach = {}
+    for r in results:
+        for fn, lines in (r.get("reach") or {}).items():
+            reach.setdefault(fn, set()).update(lines)
+    reach_report = {}
+    anchors = []
+    try:
+        for line in open(os.path.join(HERE, "properties.jsonl")):
+            pj = json.loads(line)
+            if pj["id"] == prop:
+                anchors = pj["anchors"]["files"]
+    except OSError:
+        pass
+    src_root = os.path.join(repo_dir(), "src", "superrec2")
+    anchored_files = []
+    for a in anchors:
+        a = a.replace("src/superrec2/", "")
+        full = os.path.join(src_root, a)
+        if os.path.isdir(full):
+            anchored_files += [os.path.join(a, f) for f in sorted(os.listdir(full)) if f.endswith(".py") and f != "__init__.py"]
+        elif os.path.exists(full):
+            anchored_files.append(a)
+    for fn in anchored_files:
+        total = executable_lines(os.path.join(src_root, fn))
+        hit = reach.get(fn.replace("/", os.sep), set()) & total
+        reach_report[fn] = {"executed": len(hit), "executable": len(total)}
+    unreached = [fn for fn, v in reach_report.items() if v["executable"] and v["executed"] == 0]
+
     # ---- cross-process determinism: same key must give the same digest in every shard
     dig = {}
     for i, r in enumerate(results):
@@ -182,6 +228,8 @@ def main(argv=None):
                 inconcl.append(f"monitor counter {name}={counters.get(name, 0)} below floor {floor}")
         if len(sigs) < 2:
             inconcl.append(f"only {len(sigs)} distinct non-trivial cases observed")
+        if reach and unreached and not meta.get("reach_optional"):
+            inconcl.append(f"reach observer: no statement of anchored file(s) {unreached} was executed")
 
     # ---- report
     for line in sorted(set(known)):
@@ -215,6 +263,7 @@ def main(argv=None):
             "monitors": {k: v for k, v in sorted(counters.items())},
             "shards": len(jobs),
             "tree_under_test": tree_id(),
+            "reach_anchored_files": reach_report,
             "known_findings_replayed": sorted(set(known)),
             "inconclusive": inconcl[:10],
             "notes": sorted(set(notes))[:40],
